@@ -786,14 +786,16 @@ def table_symmetries(biort, qshift, lens):
 def w_dt_adj(S, item):
     """item = (fn, biort, qshift, H, W, o_dim, ri_dim, variant, mask)
     fn in FWD_J1, FWD_J2PLUS, INV_J1, INV_J2PLUS; variant: 'plain' | 'skip' | 'nohigh'"""
-    fn, biort, qshift, H, W, o_dim, ri_dim, variant, mask = item
+    fn, biort, qshift, H, W, o_dim, ri_dim, variant, mask = item[:9]
+    mode = item[9] if len(item) > 9 else 'symmetric'
     res = {'cmp': 1, 'diff': 0, 'findings': [], 'sample': None}
     S.libs.apply_log = []
     construct = '%s.backward' % fn
-    disc0 = '%s%s' % (variant, '' if (o_dim, ri_dim) == (2, -1) else ',layout')
+    disc0 = '%s%s%s' % (variant, '' if (o_dim, ri_dim) == (2, -1) else ',layout',
+                        '' if mode == 'symmetric' else ',mode=' + mode)
     if fn.startswith('FWD'):
         J = 1 if fn == 'FWD_J1' else 2
-        kw = dict(biort=biort, qshift=qshift, J=J, o_dim=o_dim, ri_dim=ri_dim)
+        kw = dict(biort=biort, qshift=qshift, J=J, o_dim=o_dim, ri_dim=ri_dim, mode=mode)
         if variant == 'skip':
             kw['skip_hps'] = [False] * (J - 1) + [True]
         m = S.construct(D2, 'DTCWTForward', **kw)
@@ -801,7 +803,7 @@ def w_dt_adj(S, item):
         o = S.run(S.method(m, 'forward'), x)
     else:
         J = 1 if fn == 'INV_J1' else 2
-        m = S.construct(D2, 'DTCWTInverse', biort=biort, qshift=qshift, o_dim=o_dim, ri_dim=ri_dim)
+        m = S.construct(D2, 'DTCWTInverse', biort=biort, qshift=qshift, o_dim=o_dim, ri_dim=ri_dim, mode=mode)
         (bl, yl), hs = pyramid_bases(1, 2, H, W, J, o_dim, ri_dim)
         yl.requires_grad = bool(mask & 1)
         for b, t in hs:
